@@ -17,7 +17,8 @@ EXPLANATION = (
     "are read, not recomputed differently: species / find_source_sink / grain_groups derive from _reactants, _products and the declared extra "
     "species only; R5 removal by positions removes exactly those positions and the de-duplicating callers pass positions (shared with C15.R4); "
     "R6 every property view of Network is recomputed on each read, or, if it memoises, every method that writes one of its inputs resets the memo; "
-    "R7 no command installs a persistent allowed_species filter on a network it goes on adding reactions to.")
+    "R7 no command installs a persistent allowed_species filter on a network it goes on adding reactions to; R8 no reaction is lost before it reaches "
+    "the filter: the pre-processing hook the formats inherit from Reaction returns every line it is given (shared with C07.R1).")
 ASSUMPTIONS = [
     "equivalence with a reference model after arbitrary histories (order of reactions after re-filtering, identity of removed duplicates) is not decided",
 ]
@@ -42,6 +43,20 @@ def check(ctx):
     _r4_callers(ctx, pkg, "R5")
     _r6(ctx, pkg)
     _r7(ctx, pkg)
+    # "it holds every added reaction whose species are all allowed": a reaction handed over as text reaches the filter of _add_reaction
+    # only if the line survives the format's pre-processing -- the base hook every format but KROME inherits keeps EVERY line
+    # (a line beginning with the surface prefix '#' is a reaction, not a comment).  Shared with C07.R1.
+    from .c07 import _r1 as line_flow
+    from ..core import AnalysisError
+
+    def identity_only(sub):
+        try:
+            line_flow(sub, package(sub.tree))
+        except AnalysisError as e:
+            # another obligation of C07.R1 lost its anchor: C07's business -- unless the base hook itself was never reached
+            if not any(o.key == "Reaction.preprocessing:identity" for o in sub.obs):
+                sub.unrec("R1", "Reaction.preprocessing:identity", e.where or ("naunet/reactions/reaction.py", 0), f"the base pre-processing hook could not be read: {e}")
+    ctx.absorb(identity_only, "R8", only=lambda o: o.key == "Reaction.preprocessing:identity" and o.outcome != "MISSING")
 
 
 def _aliases(fl, attr_ir):
@@ -163,6 +178,7 @@ def _covers(update, mutation):
 def _r1(ctx, pkg):
     ci = pkg.cls("Network")
     n = 0
+    judged = set()
     # helper PROCEDURES of the class are expanded where they are called (`self._rebuild_caches()` is the statements it holds); the
     # adders stay calls: they are the cache-maintaining primitives _cache_updates knows
     def procs(name):
@@ -202,12 +218,26 @@ def _r1(ctx, pkg):
                     ctx.unrec("R1", key, (NF, m.line), f"`{mname}` changes self.reaction_list without updating {missing}; it is a step of {left}, where it could not be put back in place to see whether the caller completes the update")
                 continue            # judged as part of each caller (the step is expanded there)
             n += 1
+            judged.add(mname)
+            if missing:
+                # the network itself (or one of the cached sets) is handed to code that is not read here -- a module-level function, a
+                # helper of the class that was not put back in place: whether the update happens there is not known (never a verdict)
+                handed = [c for c in ast.walk(efn) if isinstance(c, ast.Call) and not (isinstance(c.func, ast.Attribute) and c.func.attr in ADDERS)
+                          and (any(isinstance(a, ast.Name) and a.id == "self" for a in list(c.args) + [k.value for k in c.keywords])
+                               or any(isinstance(a, ast.Attribute) and isinstance(a.value, ast.Name) and a.value.id == "self" and a.attr in CACHES for a in list(c.args) + [k.value for k in c.keywords])
+                               or (isinstance(c.func, ast.Attribute) and isinstance(c.func.value, ast.Name) and c.func.value.id == "self" and pkg.resolve("Network", c.func.attr)[1] is not None
+                                   and any(a in _self_writes(pkg.resolve("Network", c.func.attr)[1]) for a in CACHES)))]
+                if handed:
+                    ctx.unrec("R1", key, (NF, m.line), f"self.reaction_list is changed here ({kind}); {missing} may be updated by `{ast.unparse(handed[0])[:60]}`, which this rule does not read")
+                    continue
             ctx.check(not missing, "R1", key, (NF, m.line),
                       "the cached species sets are updated on this path" if not missing else
                       f"self.reaction_list is changed here ({kind}) but {missing} are neither updated nor rebuilt on this path: "
                       "species / sources / sinks keep the species of reactions that are gone",
                       expected="update or rebuild of self._reactants and self._products", found=f"{kind} of reaction_list only")
-    ctx.floor("R1", "mutations of reaction_list", n, 7)
+    # (counted per METHOD: how many statements a method spreads its edit over -- one rebuild per kind of argument, or one rebuild
+    # with the test chosen beforehand -- is spelling; today: _add_reaction, remove_reaction, the allowed_species setter)
+    ctx.floor("R1", "methods that change reaction_list", len(judged), 3)
     # nobody outside Network writes the caches
     outside = []
     own = {id(n_) for n_ in ast.walk(ci.node)}        # statements of Network's own methods, whatever the receiver is called
@@ -289,6 +319,15 @@ def _r2(ctx, pkg):
         if mentions and not quantified:
             ctx.unrec("R2", "_add_reaction:filter dominates append", (NF, a.line), f"the test of the allowed list that guards the append is not understood: {detail[:200]}")
             return
+        if not mentions and not quantified:
+            # nothing about the allowed list on the way to the append.  If another method of the class tests the list (the filter was
+            # moved to a caller / a wrapper), where reactions are rejected is not read here; if NOBODY reads it, the filter is gone
+            elsewhere = [mn for mn, mf in pkg.cls("Network").methods.items() if not mn.startswith("allowed_species") and mn != "_add_reaction"
+                         and any(isinstance(x, ast.Attribute) and x.attr in ("_allowed_species", "allowed_species") and isinstance(x.ctx, ast.Load) for x in ast.walk(mf))
+                         and mn not in ("__init__",)]
+            if elsewhere:
+                ctx.unrec("R2", "_add_reaction:filter dominates append", (NF, a.line), f"_add_reaction appends without testing the allowed list, which {elsewhere[:3]} read: where reactions are rejected is not understood")
+                return
     ctx.check(dominated, "R2", "_add_reaction:filter dominates append", (NF, a.line),
               "a reaction is appended only if the allowed list is empty or all of its reactants and products are in it (Species membership)" if dominated else
               "the append is not dominated by `all(rp in self._allowed_species for rp in reactants + products)`: a reaction mentioning a disallowed species "
@@ -296,8 +335,15 @@ def _r2(ctx, pkg):
               expected="if self._allowed_species and not all([rp in self._allowed_species for rp in reaction.reactants + reaction.products]): skip", found=detail[:300])
     ok_skip = len(skip) == 1 and skipped[0][1] == reac and \
         bool(tests) and not guards_satisfiable(skip[0].guards, [(tests[0], all_test(tests[0]) > 0)]) and guards_satisfiable(skip[0].guards, [(ALLOWED, True), (tests[0], all_test(tests[0]) < 0)])
-    ctx.check(ok_skip, "R2", "_add_reaction:rejected are remembered", (NF, skip[0].line if skip else fn.lineno),
-              "a rejected reaction is recorded in _skipped_reactions (so a later change of the allowed list can re-admit it)")
+    # understood: one append of the reaction itself (judged by the path it sits on), or no trace of _skipped_reactions in the method at
+    # all (rejected reactions are forgotten).  Several appends, another value, the list written in another way: not understood.
+    touched = [n_ for n_ in ast.walk(fn) if isinstance(n_, ast.Attribute) and n_.attr == "_skipped_reactions"]
+    if not ok_skip and (not tests or len(skip) > 1 or (len(skip) == 1 and skipped[0][1] != reac) or (not skip and touched)):
+        ctx.unrec("R2", "_add_reaction:rejected are remembered", (NF, skip[0].line if skip else fn.lineno),
+                  f"how rejected reactions are recorded is not understood ({len(skip)} appends to _skipped_reactions, {len(touched)} mentions)")
+    else:
+        ctx.check(ok_skip, "R2", "_add_reaction:rejected are remembered", (NF, skip[0].line if skip else fn.lineno),
+                  "a rejected reaction is recorded in _skipped_reactions (so a later change of the allowed list can re-admit it)")
     # cache updates use the appended reaction: self._reactants.update(X) / self._reactants |= X / self._reactants = self._reactants | X
     cal = {name: c for c in CACHES for name in _aliases(fl, ("attr", SELF, c))}
     ups = [(f, g) for f in fl.facts for g in [_cache_growth(f, cal)] if g is not None]
@@ -314,6 +360,8 @@ def _r2(ctx, pkg):
               (f.kind in ("append", "mutate", "remove", "store") and f.target in cal))]
     if not good and other:
         ctx.unrec("R2", "_add_reaction:cache update", (NF, other[0].line), f"the cached sets are maintained in a way that is not understood ({other[0].kind} {other[0].target})")
+    elif not good and not ups and any(isinstance(c, ast.Call) and any(isinstance(a_, ast.Name) and a_.id == "self" for a_ in c.args) for c in ast.walk(fn)):
+        ctx.unrec("R2", "_add_reaction:cache update", (NF, fn.lineno), "no update of the cached sets in _add_reaction, and the network is handed to code this rule does not read")
     else:
         ctx.check(good, "R2", "_add_reaction:cache update", (NF, ups[0][0].line if ups else fn.lineno), "_reactants/_products receive the species of exactly the appended reaction, on the same path")
     # setter
@@ -322,25 +370,89 @@ def _r2(ctx, pkg):
         ctx.missing("R2", "allowed_species.setter", (NF, 0), "setter vanished")
         return
     sfl = Flow(st, NF)
-    clears = {f.value[1][2] for f in sfl.facts if f.kind == "call" and f.target == "clear" and f.value[1][0] == "attr" and f.value[1][1] == SELF}
-    resets = {f.target: simp(f.value) for f in sfl.facts if f.kind == "attrstore" and f.extra.get("obj") == SELF}
+    SETTER = "allowed_species.setter"
+    SK = ("attr", SELF, "_skipped_reactions")
+    STATE = ("reaction_list", "_skipped_reactions") + CACHES
+
+    def members(r):
+        """the attributes of self a receiver stands for: itself, or -- for the variable of a loop over a display of them -- each"""
+        r = simp(r)
+        if r[0] == "attr" and r[1] == SELF:
+            return [r[2]]
+        if r[0] == "elem" and simp(r[1])[0] in ("tuple", "list") and all(e[0] == "attr" and e[1] == SELF for e in simp(r[1])[1]):
+            return [e[2] for e in simp(r[1])[1]]
+        return None
+    emptied, unread = {}, []                 # attribute -> seq of the statement that empties it;  writes this rule cannot attribute
+    al = {name: simp(lst[0][0])[2] for name, lst in sfl.assigns.items() if lst and all(simp(v) == simp(lst[0][0]) for v, *_ in lst)
+          and simp(lst[0][0])[0] == "attr" and simp(lst[0][0])[1] == SELF and simp(lst[0][0])[2] in STATE}
+    for f in sfl.facts:
+        if f.kind == "call" and f.target == "clear" and f.value and f.value[0] == "meth":
+            ms = members(f.value[1])
+            if ms is None:
+                unread.append(f)
+            else:
+                for a_ in ms:
+                    emptied.setdefault(a_, f.seq)
+        elif f.kind == "mutate" and f.op == "clear" and f.target in al:
+            emptied.setdefault(al[f.target], f.seq)
+        elif f.kind == "attrstore" and f.extra.get("obj") == SELF and f.target in STATE:
+            v = simp(f.value)
+            if v in (("list", ()), ("call", ("global", "list"), (), ()), ("call", ("global", "set"), (), ()), ("set", ())) and f.op == "=":
+                emptied.setdefault(f.target, f.seq)
+            else:
+                unread.append(f)
+        elif f.kind == "call" and f.value and f.value[0] == "meth" and simp(f.value[1]) == SELF and f.target not in ("add_reaction", "_add_reaction"):
+            unread.append(f)                # a helper of the class: what it resets is not read here
+        elif f.kind == "call" and f.value and f.value[0] == "call" and any(x == ("global", "setattr") for x in walk(f.value)):
+            unread.append(f)
     # by role: the snapshot is the list the re-adding loop iterates
-    adds = [f for f in sfl.facts if f.kind == "call" and f.target == "add_reaction" and f.loops]
-    it0 = simp(adds[0].loops[0].iter) if adds else None
-    rec = [e for lst in sfl.assigns.values() for e in lst if it0 is not None and simp(e[0]) == it0]
-    ok_rec = bool(rec) and sorted(_concat_operands(simp(rec[0][0]))) == sorted([RL, ("attr", SELF, "_skipped_reactions")])
-    seq_rec = rec[0][4] if rec else 0
-    reset_after = all(f.seq > seq_rec for f in sfl.facts if (f.kind == "attrstore" and f.target in ("reaction_list", "_skipped_reactions")) or (f.kind == "call" and f.target == "clear"))
-    re_add = [f for f in sfl.facts if f.kind == "call" and f.target == "add_reaction" and f.loops and simp(f.loops[0].iter) == (simp(rec[0][0]) if rec else None)]
-    # emptied: re-bound to a new empty list, or cleared in place (the snapshot is a new list, see ok_rec)
-    emptied = lambda attr: simp(resets.get(attr, ("?",))) in (("list", ()), ("call", ("global", "list"), (), ())) or attr in clears
-    ok = {"_reactants", "_products"} <= clears | set(resets) and emptied("reaction_list") and emptied("_skipped_reactions") and ok_rec and reset_after and len(re_add) == 1
-    ctx.check(ok, "R2", "allowed_species.setter", (NF, st.lineno),
+    adds = [f for f in sfl.facts if f.kind == "call" and f.target in ("add_reaction", "_add_reaction") and f.value and f.value[0] == "meth" and simp(f.value[1]) == SELF]
+    looped = [f for f in adds if f.loops]
+    # a queue drained from the front -- `while q: self.add_reaction(q.popleft())` (or .pop(0)), q tested for emptiness only -- visits the
+    # members of q in order, as `for x in q` does
+    drained = None
+    if len(looped) == 1 and looped[0].loops[0].kind == "while" and len(looped[0].loops) == 1 and len(looped[0].value[3]) == 1:
+        arg, test = simp(looped[0].value[3][0]), simp(looped[0].loops[0].iter[1])
+        if arg[0] == "meth" and arg[1] == test and ((arg[2] == "popleft" and not arg[3]) or (arg[2] == "pop" and arg[3] == (("const", 0),))) and not arg[4] \
+                and sum(1 for f in sfl.facts if looped[0].loops[0] in f.loops) == 1:
+            drained = test
+    if not looped or (any(f.loops[0].kind != "for" for f in looped) and drained is None) or len(looped) != 1:
+        if not adds and not unread:
+            ctx.bad("R2", SETTER, (NF, st.lineno), "the setter installs a new allowed list without re-examining the reactions through add_reaction: reactions admitted under the old list stay, "
+                    "skipped ones are never re-admitted", expected="for reaction in reaction_list + _skipped_reactions: self.add_reaction(reaction)", found="no call of add_reaction")
+        else:
+            ctx.unrec("R2", SETTER, (NF, st.lineno), "how the setter re-examines the recorded reactions is not understood (expected one `for` loop calling self.add_reaction)")
+        return
+    radd = looped[0]
+    it0 = drained if drained is not None else simp(radd.loops[0].iter)
+    rec = [e for lst in sfl.assigns.values() for e in lst if simp(e[0]) == it0]
+    from .c09 import _unwrap_seq
+    snap = _unwrap_seq(it0)
+    while snap[0] == "call" and snap[1] in (("global", "deque"), ("attr", ("global", "collections"), "deque")) and len(snap[2]) == 1 and not snap[3]:
+        snap = _unwrap_seq(snap[2][0])
+    ops = [simp(o) for o in _concat_operands(snap)]
+    arg_ok = len(radd.value[3]) == 1 and (simp(radd.value[3][0])[0] == "elem" or drained is not None)
+    if not rec or not all(o[0] == "attr" and o[1] == SELF for o in ops) or not arg_ok:
+        ctx.unrec("R2", SETTER, (NF, radd.line), f"the collection whose members are re-added is not a recorded concatenation of the network's own lists: {show(it0)[:100]}")
+        return
+    seq_rec = rec[0][4]
+    want = sorted([RL, SK])
+    missing = [a_ for a_ in STATE if a_ not in emptied]
+    early = [a_ for a_ in STATE if a_ in emptied and emptied[a_] < seq_rec and a_ in ("reaction_list", "_skipped_reactions")]
+    late = [a_ for a_ in STATE if a_ in emptied and emptied[a_] > radd.seq]
+    if (missing or late) and unread:
+        ctx.unrec("R2", SETTER, (NF, unread[0].line), f"{missing or late} may be reset by a statement this rule cannot read ({unread[0].kind} {unread[0].target})")
+        return
+    ok = sorted(ops) == want and not missing and not early and not late
+    ctx.check(ok, "R2", SETTER, (NF, st.lineno),
               "the setter records reaction_list + _skipped_reactions, clears all caches, and re-adds every recorded reaction through add_reaction",
-              found=f"clears {sorted(clears)}, resets {sorted(resets)}, recorded={show(simp(rec[0][0]))[:60] if rec else None}, re-add loops {len(re_add)}")
+              found=f"emptied {sorted(emptied)}, recorded={show(snap)[:60]}, emptied before the record was taken: {early}, after the re-adding: {late}")
     # the new allowed list is installed before re-adding
-    al = [f for f in sfl.facts if f.kind == "attrstore" and f.target == "_allowed_species"]
-    ctx.check(len(al) == 1 and re_add and al[0].seq < re_add[0].seq, "R2", "allowed_species.setter:order", (NF, st.lineno), "the new allowed list is installed before the reactions are re-examined")
+    al_ = [f for f in sfl.facts if f.kind == "attrstore" and f.target == "_allowed_species"]
+    if len(al_) != 1:
+        ctx.unrec("R2", SETTER + ":order", (NF, st.lineno), f"expected one assignment of self._allowed_species in the setter, found {len(al_)}")
+    else:
+        ctx.check(al_[0].seq < radd.seq, "R2", SETTER + ":order", (NF, st.lineno), "the new allowed list is installed before the reactions are re-examined")
 
 
 class _Strings:
@@ -691,9 +803,12 @@ def _r4(ctx, pkg):
     for f, layers, members in rets[:1]:
         ops = union_operands(members)
         ok = len(ops) == 3 and set(ops) == want
-        # a helper method that could not be followed, a loop-carried value: not understood (never a verdict)
-        opaque = not ok and any(o[0] in ("unknown", "carried", "after", "acc", "phi") or (o[0] == "meth" and o[1] == SELF) for o in ops)
-        if opaque:
+        # VIOLATION only for a union that is understood -- every operand one of the instance's own collections (as it is, or as a
+        # set) -- and is not the three: one is missing, another one is mixed in.  A helper that could not be followed, a selection,
+        # a loop-carried value: not understood (never a verdict)
+        plain = lambda o: (o[0] == "attr" and o[1] == SELF) or (o[0] == "call" and o[1] in (("global", "set"), ("global", "frozenset")) and len(o[2]) == 1 and not o[3]
+                                                                and o[2][0][0] == "attr" and o[2][0][1] == SELF)
+        if not ok and not (ops and all(plain(o) for o in ops)):
             ctx.unrec("R4", "Network.species:source", (NF, fn.lineno), f"where the species come from is not understood: {show(members)[:120]}")
         else:
             ctx.check(ok, "R4", "Network.species:source", (NF, fn.lineno), "species are the members of _reactants | _products | set(_required_species)", found=show(members)[:100])
@@ -708,9 +823,17 @@ def _r4(ctx, pkg):
     if src is None or snk is None:
         ctx.unrec("R4", "Network.find_source_sink", (NF, fn.lineno), "the result is not a pair of set differences: " + "; ".join(show(x)[:80] for x in rv))
     else:
+        def bare(o):
+            while o[0] == "call" and o[1] in (("global", "set"), ("global", "frozenset")) and len(o[2]) == 1 and not o[3]:
+                o = o[2][0]
+            return o
+        src, snk = tuple(bare(o) for o in src), tuple(bare(o) for o in snk)
         ok = src == (R, P) and snk == (P, R)
-        ctx.check(ok, "R4", "Network.find_source_sink", (NF, fn.lineno), "sources = reactants - products, sinks = products - reactants",
-                  found=f"{show(src[0])} - {show(src[1])} / {show(snk[0])} - {show(snk[1])}")
+        if not ok and not all(o in (R, P) for o in src + snk):
+            ctx.unrec("R4", "Network.find_source_sink", (NF, fn.lineno), f"a difference of collections other than the two cached sets: {show(src[0])[:60]} - {show(src[1])[:60]} / {show(snk[0])[:60]} - {show(snk[1])[:60]}")
+        else:
+            ctx.check(ok, "R4", "Network.find_source_sink", (NF, fn.lineno), "sources = reactants - products, sinks = products - reactants",
+                      found=f"{show(src[0])} - {show(src[1])} / {show(snk[0])} - {show(snk[1])}")
 
 
 # ------------------------------------------------------------------ R7  a one-off reduction must not stay behind as a filter
@@ -1099,3 +1222,19 @@ MUTANTS += [{"name": "products-updated-only-when-reactants-are-new", "file": NF,
              "new": "        if new_reactants:\n            self._reactants.update(new_reactants)\n            self._products.update(new_products)\n", "rules": ["R1", "R2"]}]
 BENIGN += [{"name": "setter-clears-the-lists-in-place", "file": NF, "old": "        self.reaction_list = []\n        self._skipped_reactions = []\n\n        for reaction in recorded_reactions:",
             "new": "        self.reaction_list.clear()\n        self._skipped_reactions.clear()\n\n        for reaction in recorded_reactions:"}]
+
+# --- third hardening wave ---------------------------------------------------------------------------------------------------------
+RXF = "naunet/reactions/reaction.py"
+MUTANTS += [{"name": "base-preprocessing-drops-hash-lines", "file": RXF, "old": '        """\n\n        return line\n', "new": '        """\n\n        if line.startswith("#"):\n            return ""\n\n        return line\n', "rules": ["R8"]}]
+BENIGN += [{"name": "base-preprocessing-returns-through-a-local", "file": RXF, "old": '        """\n\n        return line\n', "new": '        """\n\n        kept = line\n        return kept\n'}]
+
+
+def _setter_queue(snapshot="self.reaction_list + self._skipped_reactions"):
+    return [{"file": NF, "old": "import logging\n", "new": "import logging\nfrom collections import deque\n"},
+            {"file": NF, "old": "        recorded_reactions = self.reaction_list + self._skipped_reactions\n", "new": "        recorded_reactions = deque(" + snapshot + ")\n"},
+            {"file": NF, "old": "        for reaction in recorded_reactions:\n            self.add_reaction(reaction)\n",
+             "new": "        while recorded_reactions:\n            self.add_reaction(recorded_reactions.popleft())\n"}]
+
+
+BENIGN += [{"name": "setter-drains-a-queue-of-the-recorded-reactions", "edits": _setter_queue()}]
+MUTANTS += [{"name": "setter-queue-forgets-the-skipped-reactions", "edits": _setter_queue("self.reaction_list"), "rules": ["R2"]}]
